@@ -1,13 +1,106 @@
+import os
+import re
+from vlib import assemble as _asm
+
 F = 'pdf/src/font.rs'
 IMPL = r'^impl Widths$'
+
+# ---------------------------------------------------------------------------------------------------------------------------
+# Index helpers (hardening round 3). A private one-expression method of `impl Widths` of the SHAPE
+#     fn NAME(&self, ARG: usize) -> usize { EXPR }          (not one of get/new/ensure_cid/set/_set)
+# that a refactoring introduces has no contract of its own, so the callers' contracts could not be checked against it. Up to
+# two such helpers are found here BY SHAPE (whatever their name) in the tree under verification and put under the MECHANICAL
+# STRONGEST POSTCONDITION of their body: `r == [[EXPR]]`, where [[.]] reads the integer expression in spec mode
+#     A.saturating_sub(B)            -> (if A >= B { A - B } else { 0 })
+#     A.checked_sub(B).unwrap_or(C)  -> (if A >= B { A - B } else { C })
+#     if/else, comparisons, + - *, literals, ARG, self.first_char, self.values.len()   as written
+# (the exec body itself stays verbatim: Verus reads usize::saturating_sub / checked_sub natively and checks every `+`/`-`).
+# A body outside this grammar is NOT given a guessed contract: the item is left out and the unit ends undecided on such a tree.
+# A bare `A - B` at the top of the expression additionally gets `requires A >= B` (the weakest precondition of the subtraction):
+# the helper is private and the precondition is then CHECKED at every call site, all of which are in `impl Widths` / Font::widths
+# (= the functions of units widths / fontwidths); if a call is found in font.rs outside these the item is left out as well.
+_KNOWN = ('get', 'new', 'ensure_cid', 'set', '_set')
+_ATOM = r'(?:[A-Za-z_]\w*(?:\.[A-Za-z_]\w*)*(?:\(\))?|\d+|\((?:[^()]|\([^()]*\))*\))'
+
+
+def _impl_widths_text():
+    try:
+        src = open(os.path.join(_asm.REPO, F), encoding='utf-8').read()
+    except OSError:
+        return '', ''
+    src = re.sub(r'//[^\n]*', '', src)
+    m = re.search(r'^impl Widths \{\n(.*?)^\}', src, re.S | re.M)
+    return (m.group(1) if m else ''), src
+
+
+def _to_spec(expr):
+    """[[EXPR]] or None"""
+    e = ' '.join(expr.split())
+    for _ in range(8):
+        n = re.sub(r'(%s)\.checked_sub\(([^()]*(?:\(\))?[^()]*)\)\.unwrap_or\(([^()]*)\)' % _ATOM, r'(if \1 >= \2 { \1 - \2 } else { \3 })', e)
+        n = re.sub(r'(%s)\.saturating_sub\(([^()]*(?:\(\))?[^()]*)\)' % _ATOM, r'(if \1 >= \2 { \1 - \2 } else { 0 })', n)
+        if n == e:
+            break
+        e = n
+    left = re.sub(r'self\.first_char|self\.values\.len\(\)|\bif\b|\belse\b', ' ', e)
+    return e, left
+
+
+def _index_helpers():
+    body, src = _impl_widths_text()
+    out = []
+    for m in re.finditer(r'\bfn\s+(\w+)\s*\(\s*&self\s*,\s*(\w+)\s*:\s*usize\s*\)\s*->\s*usize\s*\{([^{}]*(?:\{[^{}]*\}[^{}]*)*)\}', body):
+        name, arg, expr = m.group(1), m.group(2), m.group(3).strip()
+        if name in _KNOWN or ';' in expr:
+            continue
+        spec, left = _to_spec(expr)
+        left = re.sub(r'\b%s\b' % re.escape(arg), ' ', left)
+        if re.search(r'[A-Za-z_]', left) or re.search(r'[^\s\d+\-*<>=!&|(){}]', left):
+            continue                      # outside the grammar: no guessed contract
+        req = []
+        mt = re.fullmatch(r'(%s)\s*-\s*(%s)' % (_ATOM, _ATOM), ' '.join(expr.split()))
+        if mt:
+            req = ['%s >= %s' % (mt.group(1), mt.group(2))]
+            # every call must lie in impl Widths or in Font::widths
+            calls = len(re.findall(r'\.%s\(' % re.escape(name), src))
+            fw = re.search(r'\bpub fn widths\b.*?\n    \}\n', src, re.S)
+            inside = len(re.findall(r'\.%s\(' % re.escape(name), body)) + (len(re.findall(r'\.%s\(' % re.escape(name), fw.group(0))) if fw else 0)
+            if calls != inside:
+                continue
+        out.append({'name': name, 'arg': arg, 'spec': spec, 'requires': req})
+    return out[:2]
+
+
+def _helper_item(i, hs):
+    if i < len(hs):
+        h = hs[i]
+        return {'kind': 'fn', 'file': F, 'container': IMPL, 'name': h['name'], 'verus_name': 'Widths::' + h['name'], 'props': ['C19'],
+                'optional': True, 'requires': h['requires'],
+                'ensures': [('helper_strongest_post', 'r == %s' % h['spec'])]}
+    return {'kind': 'fn', 'file': F, 'container': IMPL, 'name': '__no_index_helper_%d' % (i + 1), 'optional': True, 'props': ['C19'], 'ensures': []}
+
+
+_HS = _index_helpers()
 UNIT = {
  'name': 'widths',
  'doc': 'Width table of a font against an abstract total map code -> width',
+ 'native': {'tests': [
+    {'name': 'widths_tables_and_fonts_small', 'code': 'widths_bounded.rs', 'place': 'pdf/src/font.rs', 'filter': 'verif_widths_bounded',
+     'fn': 'Widths::get', 'props': ['C19'], 'tier': 'quick', 'timeout': 900,
+     'bound': 'tables first_char in {0,1,32,255} x length 0..=4 x default in {0,1000}, laid out directly and built with new+set in every insertion '
+              'order (<= 24) with and without a gap (all five growth cases of _set); simple fonts /FirstChar in {0,1,32,255} with 0..=4 /Widths; '
+              '8 composite /W arrays (lowest code 20, 0, 1, 255; both group forms; groups out of order; empty) x /DW absent (1000) / 750; every table '
+              'queried for EVERY code 0..=300 and for 65535, usize::MAX',
+     'contract': 'get(code) == the entry at code - first_char inside the table, the default below AND above it (C19 statement); simple fonts: '
+                 '/Widths[code - FirstChar] inside FirstChar..LastChar, 0 outside; composite fonts: the /W group containing the code, /DW elsewhere'},
+ ]},
  'items': {
   'struct Widths': {'kind': 'decl', 'file': F, 'header': r'^pub struct Widths$',
      'rewrites': [{'rule': 'R2', 'find': 'values:', 'replace': 'pub values:'},
                   {'rule': 'R2', 'find': 'default:', 'replace': 'pub default:'},
                   {'rule': 'R2', 'find': 'first_char:', 'replace': 'pub first_char:'}]},
+  'Widths::index_helper1': _helper_item(0, _HS),
+  'Widths::index_helper2': _helper_item(1, _HS),
   'Widths::get': {'kind': 'fn', 'file': F, 'container': IMPL, 'name': 'get', 'props': ['C19'],
      'ensures': [('get_is_view', 'r == self.view_at(cid as int)')]},
   'Widths::new': {'kind': 'fn', 'file': F, 'container': IMPL, 'name': 'new', 'props': ['C19'],
